@@ -314,6 +314,13 @@ func init() {
 					rd[g] = true
 				}
 			}
+			ini := map[string]bool{}
+			for _, jr := range c.Results {
+				for g := range jr.GlobalInit {
+					ini[g] = true
+				}
+			}
+			c.Extra["package_vars_initialised_once_with_constants"] = sortedKeys(ini)
 			c.Extra["package_vars_written_by_Step"] = sortedKeys(w)
 			c.Extra["package_vars_read_by_Step"] = sortedKeys(rd)
 			for g := range w {
